@@ -1,7 +1,7 @@
 (** C13 — failsafe mode isolates failing locations.
     Property theorems only (model: Model/Grid.v, tied to _debiaser.py by correspondence K8). *)
 From Coq Require Import List Bool Arith Permutation.
-From IV Require Import Grid Grid_proofs Grid_corollaries.
+From IV Require Import Grid Grid_proofs Grid_corollaries Grid_more.
 Import ListNotations.
 
 (** for EVERY grid and EVERY set of failing cells (not just the subsets of small grids): with
@@ -41,6 +41,33 @@ Theorem C13_parallel_eq_serial : forall (V : Type) (nan : V) f T X Y obs hist fu
   apply_parallel V nan true f T X Y obs hist fut sched = apply_serial V nan true f T X Y obs hist fut.
 Proof. intros V nan. exact (parallel_eq_serial V nan true). Qed.
 Print Assumptions C13_parallel_eq_serial.
+
+(** failsafe off: the application raises EXACTLY when some location fails (no spurious failure, none swallowed),
+    serially and for every completion order of the pool *)
+Theorem C13_nofailsafe_raises_iff : forall (V : Type) (nan : V) f T X Y obs hist fut, returns_length V f T ->
+  (apply_serial V nan false f T X Y obs hist fut = None <->
+   exists i j, i < X /\ j < Y /\ fails_at V f obs hist fut i j).
+Proof. exact nofailsafe_none_iff. Qed.
+Print Assumptions C13_nofailsafe_raises_iff.
+
+Theorem C13_nofailsafe_parallel_raises_iff : forall (V : Type) (nan : V) f T X Y obs hist fut sched,
+  returns_length V f T -> Permutation sched (seq 0 (X * Y)) ->
+  (apply_parallel V nan false f T X Y obs hist fut sched = None <->
+   exists i j, i < X /\ j < Y /\ fails_at V f obs hist fut i j).
+Proof. exact nofailsafe_parallel_none_iff. Qed.
+Print Assumptions C13_nofailsafe_parallel_raises_iff.
+
+(** failsafe on: whatever a failing location holds (NaN, garbage, anything at all) has no effect on any other
+    location of the result *)
+Theorem C13_failing_cell_is_isolated : forall (V : Type) (nan : V) f T X Y obs hist fut obs' hist' fut' i0 j0,
+  returns_length V f T ->
+  (forall i j, i < X -> j < Y -> (i, j) <> (i0, j0) ->
+     cell V obs i j = cell V obs' i j /\ cell V hist i j = cell V hist' i j /\ cell V fut i j = cell V fut' i j) ->
+  exists b b', apply_serial V nan true f T X Y obs hist fut = Some b /\
+               apply_serial V nan true f T X Y obs' hist' fut' = Some b' /\
+               forall i j, i < X -> j < Y -> (i, j) <> (i0, j0) -> ocell V b i j = ocell V b' i j.
+Proof. exact failsafe_failing_cell_is_isolated. Qed.
+Print Assumptions C13_failing_cell_is_isolated.
 
 (** non-vacuity: cell (0,1) fails; failsafe gives NaN there and the normal result elsewhere *)
 Example C13_nonvacuous :
